@@ -16,6 +16,7 @@ Import PL.
 Local Open Scope list_scope.
 
 Section C12.
+  Variable wo : wops.          (* the f64 weight arithmetic of the load balancer, abstract *)
   Variable R : Type.
   Variable plugins : list plugin.
   Variable search : json -> res R.
@@ -34,14 +35,14 @@ Section C12.
      only fuel in the model is in Yen's outer loop (a search component, see search_entry_outside_K). *)
   Theorem pipeline_total : (forall j, crashes (sink j) = false) ->
     forall batch : list json,
-      crashes (run R plugins search oplugins sink par_app par_run persist batch) = false.
-  Proof. intros Hs. exact (run_total R plugins search oplugins sink par_app par_run persist plugins_benign search_benign oplugins_benign Hs). Qed.
+      crashes (run wo R plugins search oplugins sink par_app par_run persist batch) = false.
+  Proof. intros Hs. exact (run_total wo R plugins search oplugins sink par_app par_run persist plugins_benign search_benign oplugins_benign Hs). Qed.
 
   (* the same for any JSON document offered as the batch (what the command line does) *)
   Theorem pipeline_total_any_document : (forall j, crashes (sink j) = false) ->
     forall user : json,
-      crashes (run_user R plugins search oplugins sink par_app par_run persist user) = false.
-  Proof. intros Hs. exact (run_user_total R plugins search oplugins sink par_app par_run persist plugins_benign search_benign oplugins_benign Hs). Qed.
+      crashes (run_user wo R plugins search oplugins sink par_app par_run persist user) = false.
+  Proof. intros Hs. exact (run_user_total wo R plugins search oplugins sink par_app par_run persist plugins_benign search_benign oplugins_benign Hs). Qed.
 
   (* hypotheses of the answer theorems: output plugins keep the "request" field, the sink accepts
      every response and keeps its request (ResponseSink::None: the identity), parallelism >= 1,
@@ -55,35 +56,35 @@ Section C12.
      after expansion (a query that fails in the input stage counts once); every response carries a
      request; every processed query q' is answered by a response whose request is q' *)
   Theorem every_query_answered : forall batch,
-    exists resps, run R plugins search oplugins sink par_app par_run true batch = Ok resps
+    exists resps, run wo R plugins search oplugins sink par_app par_run true batch = Ok resps
       /\ List.length resps = list_sum (map (stage_count plugins) batch)
       /\ (forall r, In r resps -> exists x, jget r "request" = Some x)
       /\ (forall q qs q', In q batch -> apply_input_plugins plugins q = SOk qs -> In q' qs ->
             exists r, In r resps /\ jget r "request" = Some q'
-                      /\ (weight_ok q' = false -> r = werr sink q')).
+                      /\ (weight_ok wo q' = false -> r = werr sink q')).
   Proof.
-    exact (run_answers_every_query R plugins search oplugins sink par_app par_run plugins_benign search_benign
+    exact (run_answers_every_query wo R plugins search oplugins sink par_app par_run plugins_benign search_benign
              oplugins_benign oplugins_keep_request sink_accepts par_pos).
   Qed.
 
   (* the responses are, up to order, the answers every query gets on its own ... *)
   Theorem responses_decompose : forall batch,
-    exists resps, run R plugins search oplugins sink par_app par_run true batch = Ok resps
-      /\ Permutation resps (flat_map (per_query R plugins search oplugins sink) batch).
+    exists resps, run wo R plugins search oplugins sink par_app par_run true batch = Ok resps
+      /\ Permutation resps (flat_map (per_query wo R plugins search oplugins sink) batch).
   Proof.
-    exact (run_decomposes R plugins search oplugins sink par_app par_run plugins_benign search_benign
+    exact (run_decomposes wo R plugins search oplugins sink par_app par_run plugins_benign search_benign
              oplugins_benign oplugins_keep_request sink_accepts par_pos).
   Qed.
   (* ... hence error_is_local: replacing one query (by one on which a component returns Err, say)
      changes that query's own responses and nothing else *)
   Theorem error_is_local : forall qs1 q q' qs2,
     exists resps resps' rest,
-      run R plugins search oplugins sink par_app par_run true (qs1 ++ q :: qs2) = Ok resps
-      /\ run R plugins search oplugins sink par_app par_run true (qs1 ++ q' :: qs2) = Ok resps'
-      /\ Permutation resps (per_query R plugins search oplugins sink q ++ rest)
-      /\ Permutation resps' (per_query R plugins search oplugins sink q' ++ rest).
+      run wo R plugins search oplugins sink par_app par_run true (qs1 ++ q :: qs2) = Ok resps
+      /\ run wo R plugins search oplugins sink par_app par_run true (qs1 ++ q' :: qs2) = Ok resps'
+      /\ Permutation resps (per_query wo R plugins search oplugins sink q ++ rest)
+      /\ Permutation resps' (per_query wo R plugins search oplugins sink q' ++ rest).
   Proof.
-    exact (run_error_is_local R plugins search oplugins sink par_app par_run plugins_benign search_benign
+    exact (run_error_is_local wo R plugins search oplugins sink par_app par_run plugins_benign search_benign
              oplugins_benign oplugins_keep_request sink_accepts par_pos).
   Qed.
 End C12.
@@ -104,16 +105,16 @@ Proof. exact nonobject_query_echoed. Qed.
 (* the concrete components satisfy the 'benign' hypothesis for EVERY JSON input *)
 Theorem inject_never_panics : forall k v o q, pbenign (inject k v o q) = true.
 Proof. exact inject_benign. Qed.
-Theorem weight_plugin_never_panics : forall c q, pbenign (lb_numeric c q) = true.
+Theorem weight_plugin_never_panics : forall wo c q, pbenign (lb_numeric wo c q) = true.
 Proof. exact lb_numeric_benign. Qed.
 Theorem grid_search_never_panics : forall q, pbenign (grid_search q) = true.
 Proof. exact grid_search_benign. Qed.
-Theorem weight_extraction_total : forall q, crashes (weight_estimate q) = false.
+Theorem weight_extraction_total : forall wo q, crashes (weight_estimate wo q) = false.
 Proof. exact weight_estimate_total. Qed.
 Theorem get_queries_never_panics : forall user, crashes (get_queries user) = false.
 Proof. exact get_queries_total. Qed.
-Theorem concrete_plugins_benign : forall p, concrete p -> (forall q, pbenign (p q) = true) /\ keeps_shape p.
-Proof. intros p H. split; [exact (concrete_benign p H)|exact (concrete_keeps_shape p H)]. Qed.
+Theorem concrete_plugins_benign : forall wo p, concrete wo p -> (forall q, pbenign (p q) = true) /\ keeps_shape p.
+Proof. intros wo p H. split; [exact (concrete_benign wo p H)|exact (concrete_keeps_shape wo p H)]. Qed.
 (* degenerate grid-search sections as the current code handles them: {} -> one copy, an empty
    array -> error, scalars ignored, a scalar section -> error, nesting -> error, non-object -> untouched *)
 Theorem grid_search_degenerate_sections :
@@ -144,11 +145,11 @@ Theorem yens_K_witness_diverges : forall spur fuel,
 Proof. exact yens_two_edges_diverges. Qed.
 (* ... and the whole call inherits it: a one-query batch panics / never returns *)
 Theorem pipeline_K_witness_panic : exists w,
-  run unit [] (yens_as_search [[0]] 8) [] (fun j => Ok j) 2 2 true
+  run zw unit [] (yens_as_search [[0]] 8) [] (fun j => Ok j) 2 2 true
       [JObj [("origin_vertex", JInt 0); ("destination_vertex", JInt 1)]] = Panic w.
 Proof. exact pipeline_yens_panics. Qed.
-Theorem pipeline_K_witness_diverges : forall fuel,
-  run unit [] (yens_as_search [[0; 1]] fuel) [] (fun j => Ok j) 2 2 true
+Theorem pipeline_K_witness_diverges : forall wo fuel,
+  run wo unit [] (yens_as_search [[0; 1]] fuel) [] (fun j => Ok j) 2 2 true
       [JObj [("origin_vertex", JInt 0); ("destination_vertex", JInt 2)]] = OutOfFuel.
 Proof. exact pipeline_yens_diverges. Qed.
 (* the seeded defect behind D-EMPTY: a chunk size of 0 panics, the arithmetic never produces it *)
@@ -156,25 +157,25 @@ Theorem chunk_size_never_zero : forall len par, 1 <= chunk_size len par.
 Proof. exact chunk_size_pos. Qed.
 
 (* statement pins *)
-Check pipeline_total : forall R plugins search oplugins sink par_app par_run persist,
+Check pipeline_total : forall wo R plugins search oplugins sink par_app par_run persist,
   (forall p, In p plugins -> forall q, pbenign (p q) = true) ->
   (forall q, crashes (search q) = false) ->
   (forall op, In op oplugins -> forall (r : R) out, crashes (op r out) = false) ->
   (forall j, crashes (sink j) = false) ->
-  forall batch : list json, crashes (run R plugins search oplugins sink par_app par_run persist batch) = false.
-Check every_query_answered : forall R plugins search oplugins sink par_app par_run,
+  forall batch : list json, crashes (run wo R plugins search oplugins sink par_app par_run persist batch) = false.
+Check every_query_answered : forall wo R plugins search oplugins sink par_app par_run,
   (forall p, In p plugins -> forall q, pbenign (p q) = true) ->
   (forall q, crashes (search q) = false) ->
   (forall op, In op oplugins -> forall (r : R) out, crashes (op r out) = false) ->
   (forall op, In op oplugins -> forall r out out', op r out = Ok out' -> jget out' "request" = jget out "request") ->
   (forall j, exists j', sink j = Ok j' /\ jget j' "request" = jget j "request") ->
   1 <= par_run ->
-  forall batch, exists resps, run R plugins search oplugins sink par_app par_run true batch = Ok resps
+  forall batch, exists resps, run wo R plugins search oplugins sink par_app par_run true batch = Ok resps
       /\ List.length resps = list_sum (map (stage_count plugins) batch)
       /\ (forall r, In r resps -> exists x, jget r "request" = Some x)
       /\ (forall q qs q', In q batch -> apply_input_plugins plugins q = SOk qs -> In q' qs ->
-            exists r, In r resps /\ jget r "request" = Some q' /\ (weight_ok q' = false -> r = werr sink q')).
-Check error_is_local : forall R plugins search oplugins sink par_app par_run,
+            exists r, In r resps /\ jget r "request" = Some q' /\ (weight_ok wo q' = false -> r = werr sink q')).
+Check error_is_local : forall wo R plugins search oplugins sink par_app par_run,
   (forall p, In p plugins -> forall q, pbenign (p q) = true) ->
   (forall q, crashes (search q) = false) ->
   (forall op, In op oplugins -> forall (r : R) out, crashes (op r out) = false) ->
@@ -182,10 +183,10 @@ Check error_is_local : forall R plugins search oplugins sink par_app par_run,
   (forall j, exists j', sink j = Ok j' /\ jget j' "request" = jget j "request") ->
   1 <= par_run ->
   forall qs1 q q' qs2, exists resps resps' rest,
-      run R plugins search oplugins sink par_app par_run true (qs1 ++ q :: qs2) = Ok resps
-      /\ run R plugins search oplugins sink par_app par_run true (qs1 ++ q' :: qs2) = Ok resps'
-      /\ Permutation resps (per_query R plugins search oplugins sink q ++ rest)
-      /\ Permutation resps' (per_query R plugins search oplugins sink q' ++ rest).
+      run wo R plugins search oplugins sink par_app par_run true (qs1 ++ q :: qs2) = Ok resps
+      /\ run wo R plugins search oplugins sink par_app par_run true (qs1 ++ q' :: qs2) = Ok resps'
+      /\ Permutation resps (per_query wo R plugins search oplugins sink q ++ rest)
+      /\ Permutation resps' (per_query wo R plugins search oplugins sink q' ++ rest).
 
 (* non-vacuity: a concrete configuration [grid_search; inject; numeric weights] with a search that
    fails on queries without an origin meets every hypothesis, and on a 5-query batch (a 2x2 grid
@@ -194,10 +195,10 @@ Check error_is_local : forall R plugins search oplugins sink par_app par_run,
 Example c12_nonvacuous :
   (forall p, In p ex_plugins -> forall q, pbenign (p q) = true)
   /\ (forall q, crashes (ex_search q) = false)
-  /\ (exists rs, run unit ex_plugins ex_search [] (fun j => Ok j) 2 3 true ex_batch = Ok rs /\ List.length rs = 8)
+  /\ (exists rs, run zw unit ex_plugins ex_search [] (fun j => Ok j) 2 3 true ex_batch = Ok rs /\ List.length rs = 8)
   /\ list_sum (map (stage_count ex_plugins) ex_batch) = 8.
 Proof.
-  split; [intros p Hp; exact (concrete_benign p (ex_plugins_concrete p Hp))|].
+  split; [intros p Hp; exact (concrete_benign zw p (ex_plugins_concrete p Hp))|].
   split; [exact ex_search_total|]. split; [exact ex_run_counts|]. vm_compute. reflexivity.
 Qed.
 
